@@ -381,7 +381,7 @@ def _hashing_concrete(key, kb, prefix, pos):
 # ---------------------------------------------------------------------------------------------- layer C
 
 BOUNDARY = (0, 1, 99, 100, 2 ** 31, 2 ** 32 - 1, 2 ** 32, 2 ** 63 - 1, 2 ** 63, 2 ** 64 - 1, -1, -(2 ** 63))
-NONINTS = (1.5, "7", None, decimal.Decimal(3), b"7", [1])
+NONINTS = (1.5, "7", None, decimal.Decimal(3), b"7", [1], "\u0661\u0662\u0663", "\uff17", "\u00b2")
 
 
 def h_ints(which: int, n: int, b: int, bad: int, useb: bool) -> int:
@@ -391,11 +391,11 @@ def h_ints(which: int, n: int, b: int, bad: int, useb: bool) -> int:
     pre: 0 <= which <= 7
     pre: 0 <= n <= 99
     pre: 0 <= b < 12
-    pre: -1 <= bad < 6
+    pre: -1 <= bad < 9
     post: _ != 0
     """
     which = concretize(which, 0, 7)
-    bad = concretize(bad, -1, 5)
+    bad = concretize(bad, -1, 8)
     net = RecNet()
     c = _client(net, b"")
     if useb:
@@ -508,6 +508,8 @@ def shards(tier):
                 S.append(dict(fn="h_hashing", timeout=T, shard=dict(stack=st, op=op, kl=3 if thorough else 2, pl=1,
                                                                     unicode=uni, encoding="utf8" if uni else "ascii")))
     S.append(dict(fn="h_ints", timeout=T, shard={}))
+    S.append(dict(fn="h_ints", timeout=T, shard=dict(encoding="utf8", unicode=True)))
+    S.append(dict(fn="h_ints", timeout=T, shard=dict(encoding="latin-1")))
     for total in (249, 250, 251):
         for pf in (0, 1, 125):
             S.append(dict(fn="h_boundary", timeout=T, shard=dict(fill=total - pf - 2, pfill=pf)))
